@@ -58,8 +58,8 @@ def gen_scenario(rng):
     last_touch = {}
     t = max(t, max(o[0] for o in ops if o[1] == 'register') + 1000)      # changes to a service only after its registration has completed
     for _ in range(rng.choice([0, 0, 1, 2, 3, 4])):
-        kind = rng.choice(['unregister', 'unregister', 'update', 'close', 'reregister'])
-        if kind == 'reregister':
+        kind = rng.choice(['unregister', 'unregister', 'update', 'close', 'reregister', 'republish'])
+        if kind in ('reregister', 'republish'):
             # a service that was withdrawn comes back (same instance name, same host)
             cands = [i for i in last_touch if i not in registered and svcs[i]['host'] not in closed]
             if not cands:
@@ -72,7 +72,8 @@ def gen_scenario(rng):
                     t = max(ops[-1][0], min(t, last_touch[i] + rng.choice([1000, 2000, 5000, 9000])))      # churn: back within seconds
                 last_touch[i] = t
                 registered.append(i)
-                ops.append((t, 'register', i))
+                # (republish: update_service() on a service that is not registered publishes it without probing)
+                ops.append((t, 'register' if kind == 'reregister' else 'update', i))
                 t += gap()
                 continue
         if kind == 'close':
@@ -198,7 +199,7 @@ def run_scenario(sc, drop_index=None):
                         s = dict(current[arg], port=current[arg]['port'] + 100, text=b'\x03u=2')
                         current[arg] = s
                         infos[arg] = c03.mk_info(s)
-                        versions[s['name']].append((sim.now - t0, dict(s)))
+                        versions.setdefault(s['name'], []).append((sim.now - t0, dict(s)))
                         await (await hosts[s['host']].zc.async_update_service(infos[arg]))
                     elif kind == 'unregister':
                         s = current[arg]
@@ -233,7 +234,7 @@ def run_scenario(sc, drop_index=None):
 def expected_final(sc):
     reg, closed = set(), set()
     for (t, kind, arg) in sc['ops']:
-        if kind == 'register':
+        if kind in ('register', 'update'):
             reg.add(arg)
         elif kind == 'unregister':
             reg.discard(arg)
@@ -414,6 +415,11 @@ def run(ctx):
     for tb in (4502000, 4505000, 4509000):
         corpus.append(dict(nh=2, svcs=[s0], browsers=[dict(host=1, types=[TYPES[0]])], ops=[(1000, 'register', 0), (tb, 'browse', 0)],
                            end=tb + 60000, seed=7, dup=0.0, drop=None, lookups=True))
+    # the only service of an instance is withdrawn and then published again with update_service() (no probing); a browser that starts after
+    # the announcements depends on its queries being answered
+    corpus.append(dict(nh=2, svcs=[s0], browsers=[dict(host=1, types=[TYPES[0]])],
+                       ops=[(1000, 'register', 0), (5000, 'unregister', 0), (9000, 'update', 0), (5000000, 'browse', 0)], end=5060000, seed=9, dup=0.0,
+                       drop=None, lookups=True))
     for k in range(n + len(corpus)):
         sc = corpus[k] if k < len(corpus) else gen_scenario(rng)
         runs, fail = explore(ctx, sc, 10 ** 6 if sc['drop'] == 'all' else budget)
